@@ -471,19 +471,6 @@ def nodeHole : HNode → Bool
   | .obj ps => ps.any fun p => hvalHole p.2
 def heapHole (H : Heap) (v : HVal) : Bool := hvalHole v || H.any nodeHole
 
-/-- region of an API edge case -/
-def apiRegion : ApiCase → Option String
-  | .runThrowToStringThrows => some "run_thrown_value_tostring_go_panic"
-  | .runThrowUnconvertible => some "run_thrown_value_tostring_go_panic"
-  | .badIsNaN => some "isnan_conversion_go_panic"
-  | .callerLocationNoScript => some "callerlocation_no_caller_go_panic"
-  | .setNilObject => some "nil_object_pointer_go_panic"
-  | .toValueNilObject => some "nil_object_pointer_go_panic"
-  | .argNilObject => some "nil_object_pointer_go_panic"
-  | .marshalFunction => some "marshal_function_not_json"
-  | .callTwoStatements => some "call_source_first_statement"
-  | _ => none
-
 end Dev
 
 end OttoVerif.C15.Spec
